@@ -904,9 +904,16 @@ class DestHandler:
             self._params.acked_params.last_end_offset = offset + data_len
         if offset + data_len <= self._params.acked_params.last_start_offset:
             # Might be a re-requested FD PDU.
-            self._params.acked_params.lost_seg_tracker.remove_lost_segment(
-                (offset, offset + data_len)
-            )
+            try:
+                self._params.acked_params.lost_seg_tracker.remove_lost_segment(
+                    (offset, offset + data_len)
+                )
+            except ValueError:
+                # The segment overlaps the end of a lost segment, which the tracker can not
+                # handle. The lost segment stays listed and will be requested again.
+                _LOGGER.warning(
+                    f"file data at offset {offset} with length {data_len} overlaps a lost segment boundary"
+                )
 
     def _deferred_lost_segment_handling(self) -> None:
         if not self._params.acked_params.deferred_lost_segment_detection_active:
